@@ -21,7 +21,9 @@ ENTRIES = {
         "note": "Cases with head below the highest synced height are outside the syncer's domain (try_init inserts the "
                 "network head, header-sub only raises it); there only disjointness, bound and contiguity are "
                 "demanded. The end-to-end FetchingHeadersStarted events of the real Syncer are judged with the same "
-                "relation (Trace_Syncer invariant FetchAllowed), in this check and in C25/C38.",
+                "relation (Trace_Syncer invariant FetchAllowed), in this check and in C25/C38; SyncerFetch.tla checks the "
+                "same relation when the pruner removes headers between the worker's store reads (the reversed read order "
+                "is refuted), and the recorded runs inject such removals into the real worker.",
         "technique": "TLA+ relation + TLC exhaustive table replayed into Rust (spec->impl)",
     },
 }
@@ -42,6 +44,9 @@ def run(ck):
     # end to end: the batches the real Syncer worker requests (FetchingHeadersStarted) must satisfy the same
     # relation with respect to the store and subjective head at request time (Trace_Syncer, FetchAllowed)
     from checks import syncer as sy
+    # ... also when the pruner removes a header between the worker's reads (SyncerFetch.tla; the recorded runs
+    # inject such removals through the store wrapper)
+    sy.mc_fetch_section(ck)
     sy.record_validate(ck, hb, combos=sy.COMBOS_QUICK if ck.quick else sy.COMBOS_THOROUGH[:4])
     ck.cov["exhaustive"] = True
     ck.cov["rule"] = ("every (synced set, head, limit) over 1..N x 2 embeddings; non-trivial = in-domain case whose "
